@@ -151,7 +151,7 @@ def h_multi3(E, tie_pattern):
 def h_nested(E, outer_ordered, inner_ordered, interior, layout):
     """grouping: 4 inputs in two groups of two, graded by a nested ListGrader"""
     from mitxgraders import ListGrader
-    grouping = {'1122': [1, 1, 2, 2], '1212': [1, 2, 1, 2], '2211': [2, 2, 1, 1], '1221': [1, 2, 2, 1]}[layout]
+    grouping = {'1122': [1, 1, 2, 2], '1212': [1, 2, 1, 2], '2211': [2, 2, 1, 1], '1221': [1, 2, 2, 1], '2121': [2, 1, 2, 1]}[layout]
     stus = ['s%d' % j for j in range(4)]
     ans = [['e00', 'e01'], ['e10', 'e11']]
     flat = [x for grp in ans for x in grp]
@@ -266,6 +266,8 @@ def harnesses(tier):
         add(h_multi3, 'multi3', dict(ties=tp), '3 answer lists, 2 inputs, credits in (0,1)')
     for layout in ('1122', '1212'):
         add(h_nested, 'nested', dict(outer=False, inner=True, interior=True, layout=layout), '2 groups x 2 inputs, credits in (0,1)')
+    for layout in ('2211', '2121', '1221'):
+        add(h_nested, 'nested', dict(outer=True, inner=True, interior=True, layout=layout), '2 groups x 2 inputs, group numbers not in page order, credits in (0,1)')
     add(h_nested, 'nested', dict(outer=True, inner=False, interior=True, layout='1221'), '2 groups x 2 inputs, credits in (0,1)')
     add(h_groups_slg, 'groups_mixed', dict(interior=True), 'grouping [1,2,1], credits in (0,1)')
     from vchecks.c06 import h_step6, h_step1
